@@ -130,19 +130,20 @@ def indicator(rng, res, n_cases):
     cases = []
     for _ in range(n_cases):
         n = rng.choice([8, 32, 52, 62, 63, 64, 65, 72, 128, 256]); s = rng.random() < 0.5; nf = rng.choice([0, 1, n // 2])
-        cases.append({'n': n, 's': s, 'nf': nf})
+        cases.append({'n': n, 's': s, 'nf': nf, 'nwm': rng.choice([None, None, 128, 96, 32, 300])})      # (n_word_max, the configurable size-inference limit, has no say in the indicator)
     run_indicator_cases(cases, res)
 
 def run_indicator_cases(cases, res):
     fx = lib.impl()
     for c in cases:
-        c = {k: c[k] for k in ('n', 's', 'nf')}; n, s, nf = c['n'], c['s'], c['nf']
+        c = {k: c.get(k) for k in ('n', 's', 'nf', 'nwm')}; n, s, nf = c['n'], c['s'], c['nf']
+        kw = {} if c['nwm'] is None else {'n_word_max': c['nwm']}
         try:
-            base = fx.Fxp(3, s, n, nf)
-            routes = {'sizes': base, 'dtype': fx.Fxp(3, dtype=base.dtype), 'like': fx.Fxp(3, like=base), 'like_none': fx.Fxp(None, like=base),
-                      'best_frac': fx.Fxp(3, s, n), 'invert': ~base, 'and': base & 1, 'resize': fx.Fxp(3, s, 8, 0)}
+            base = fx.Fxp(3, s, n, nf, **kw)
+            routes = {'sizes': base, 'dtype': fx.Fxp(3, dtype=base.dtype, **kw), 'like': fx.Fxp(3, like=base), 'like_none': fx.Fxp(None, like=base),
+                      'best_frac': fx.Fxp(3, s, n, **kw), 'invert': ~base, 'and': base & 1, 'resize': fx.Fxp(3, s, 8, 0, **kw), 'getitem': fx.Fxp([3, 1], s, n, nf, **kw)[0]}
             routes['resize'].resize(s, n, nf)
-            w = fx.Fxp(3, s, n, nf); w.reset(); routes['reset'] = w
+            w = fx.Fxp(3, s, n, nf, **kw); w.reset(); routes['reset'] = w
         except Exception as e:
             res.fail(c, 'C18: building a wide object raised %s' % lib.exc_name(e), got=str(e)[:200]); continue
         res.count('I:indicator', key=repr(c), nontrivial=True, n=len(routes))
